@@ -168,6 +168,26 @@ CtorArgs ==
   \cup {SequenceA(1, f, t, m) : f \in {0, 7, 9}, t \in {8, 12}, m \in {15, 16, 17}}
 InitC == case \in {[t |-> "c", a |-> a] : a \in {x \in CtorArgs : x.first # x.stride}}
 
+\* EDGE FAMILY (conditional): first = stride.  Documentation ("greater than") and code ("greater or equal")
+\* disagree on whether the constructors accept it and the property is silent, so nothing is demanded of
+\* the constructor.  But IF such an assertion can be constructed, it is the progression first + k * stride
+\* like any other, and a trace length fits it only if every one of its steps is inside the trace — which
+\* never happens (EdgeNeverFits): its last step is exactly the trace length.
+EdgeUniverse ==
+  UNION {{Periodic(c, t, t) : c \in Cols} : t \in Strides}
+  \cup UNION {UNION {{SequenceA(c, t, t, m) : c \in Cols} : m \in {x \in Pows(2, LMax) : x * t <= LMax}} : t \in Strides}
+EU == SetToSortSeq(EdgeUniverse, LAMBDA a, b : LexLess(Key(a), Key(b)))
+FitsStrict(a, L) == Fits(a, L) /\ \A st \in Steps(a, L) : st < L
+InitE == case \in {[t |-> "e", i |-> i] : i \in 1..Len(EU)}
+SpecE == InitE /\ [][UNCHANGED case]_vars
+EdgeNeverFits == \A L \in PowLens \cup TestLens : ~FitsStrict(EU[case.i], L)
+\* for the members of the ordinary universe the strict rule is the documented rule
+StrictIsDocumented == \A L \in PowLens : FitsStrict(U[case.i], L) = Fits(U[case.i], L)
+RowE(a, L) == [L |-> L, fits |-> FitsStrict(a, L), steps |-> IF FitsStrict(a, L) THEN Applied(a, L) ELSE <<>>]
+EmitE == PrintT(<<"REPLAY", ToJson([i |-> case.i - 1, a |-> EU[case.i], optional |-> TRUE,
+                                     tbl |-> [j \in 1..Len(TestSeq) |-> RowE(EU[case.i], TestSeq[j])],
+                                     ov |-> [j \in 1..Len(EU) |-> 2]])>>)
+
 Next == UNCHANGED case
 SpecA == InitA /\ [][Next]_vars
 SpecS == InitS /\ [][Next]_vars
